@@ -33,6 +33,7 @@ type SubjConf struct {
 	Method                                *string
 	HasData                               bool
 	Recipient, NotOnOrAfter, InResponseTo *string
+	NotBefore                             *string // rendered only: the library has no field for it, and no property speaks about it
 }
 
 // Proxy is a ProxyRestriction condition.
@@ -177,7 +178,7 @@ func (a *Assertion) Node() *Node {
 		for _, c := range a.Confs {
 			sc := El(NSA, "SubjectConfirmation").AOpt("Method", c.Method)
 			if c.HasData {
-				sc.Add(El(NSA, "SubjectConfirmationData").AOpt("InResponseTo", c.InResponseTo).AOpt("NotOnOrAfter", c.NotOnOrAfter).AOpt("Recipient", c.Recipient))
+				sc.Add(El(NSA, "SubjectConfirmationData").AOpt("InResponseTo", c.InResponseTo).AOpt("NotBefore", c.NotBefore).AOpt("NotOnOrAfter", c.NotOnOrAfter).AOpt("Recipient", c.Recipient))
 			}
 			sub.Add(sc)
 		}
